@@ -282,9 +282,9 @@ theorem inv_step (s : St) (a : Act) (s' : St) (h : Inv s) (hs : step repaired s 
             · subst hut; simp [setT_same]
             · simp only [setT_other _ _ _ _ hut]; exact hB u
           · intro u w hu _; exact absurd (hthr u _ hu (by simp)) id
-        · -- a record appeared during the drain: give up
+        · -- a record appeared during the drain: close instead of deleting
           simp [hme] at hs; subst hs
-          refine ⟨⟨hd1, hd2⟩, ?_, fun hne => absurd hst hne, ?_, ?_, ?_⟩
+          refine ⟨⟨fun _ => hd1 ⟨hl, hlt⟩, fun hc2 => absurd ⟨hl, by simp⟩ hc2⟩, ?_, fun _ => ⟨hcl, hhe⟩, ?_, ?_, ?_⟩
           · intro u hu
             by_cases hut : u = t
             · subst hut; simp [setT_same] at hu
@@ -357,9 +357,9 @@ theorem durable_repaired : Holds repaired := by
   intro file sched s hr
   exact (LTS.inv_run (step repaired) Inv (fun s a s' hi hs => inv_step s a s' hi hs) (init file) sched s (inv_init file) hr).dur
 
-/-- Non-vacuity: a destroy that finds a record after the drain gives up; a later idle close flushes. -/
+/-- Non-vacuity: a destroy that finds a record after the drain closes the swamp instead (flush, unmap). -/
 example : (run repaired (init [1]) [.summon 1, .summon 2, .del 2 1, .write 1 5, .cease 1, .destroyFinish 2,
-    .tickRead, .tickDecide, .closeFlush, .closeDone]).map (fun s => (s.live, s.file, s.acked)) = some (false, [5], [5]) := by decide
+    .closeFlush, .closeDone]).map (fun s => (s.live, s.file, s.acked)) = some (false, [5], [5]) := by decide
 
 /-! ### the current protocol -/
 
